@@ -25,6 +25,54 @@ theorem C11_interleaving_partial (v : Nat) (h h' : Heap) (acts : List Act)
     Agree h h' v ∧ Closed h' v :=
   foreign_run acts h h' hc hf hr
 
+/-- the object an action overwrites in place (allocation creates a fresh one) -/
+def target : Act → Option Nat
+  | .alloc _ => none
+  | .write _ a _ => some a
+  | .publish _ a _ => some a
+
+/-- **no conflicting access**: an object that owner `v` can see (shared, or its own) is never the
+    target of another owner's write or publish — whatever `v` reads concurrently, nobody else is
+    writing it -/
+theorem C11_no_conflicting_access_partial {h h' : Heap} {v : Nat} {act : Act} (hact : Foreign v act)
+    (hs : applyAct h act = some h') (a : Nat) (ht : target act = some a) : ¬ Vis h v (HLink.ptr a) := by
+  intro hv
+  obtain ⟨nd, hnd, hvis⟩ := hv
+  cases act with
+  | alloc _ => simp [target] at ht
+  | write m b nd' =>
+    simp only [target, Option.some.injEq] at ht
+    subst ht
+    simp only [applyAct, hnd] at hs
+    split at hs
+    · next hg =>
+      have hm : m ≠ v := hact
+      rcases hvis with h1 | h1
+      · rw [hg.2.1] at h1; cases h1
+      · exact hm (hg.1.symm.trans h1)
+    · cases hs
+  | publish m b links =>
+    simp only [target, Option.some.injEq] at ht
+    subst ht
+    simp only [applyAct, hnd] at hs
+    split at hs
+    · next hg =>
+      have hm : m ≠ v := hact
+      rcases hvis with h1 | h1
+      · rw [hg.2.1] at h1; cases h1
+      · exact hm (hg.1.symm.trans h1)
+    · cases hs
+
+/-- non-vacuity: owner 2 copies a shared node and rewrites its own copy; that is foreign to owner 1,
+    passes the guards, and the object it writes (address 1) is not visible to owner 1 -/
+example :
+    let shared : MNode := { keys := [5], vals := [50], links := [.ref 7, .nil], dirty := false, shared := true, owner := 0 }
+    let copy : MNode := { keys := [5], vals := [50], links := [.ref 7, .nil], dirty := true, shared := false, owner := 2 }
+    let w : Act := .write 2 1 { copy with keys := [5, 9], vals := [50, 90], links := [.ref 7, .nil, .nil] }
+    Foreign 1 w ∧ (applyAct [shared, copy] w).isSome = true ∧ target w = some 1 := by
+  refine ⟨by simp [Foreign], by decide, rfl⟩
+
 end Mast.Heap
+#print axioms Mast.Heap.C11_no_conflicting_access_partial
 #print axioms Mast.Heap.C11_noninterference_partial
 #print axioms Mast.Heap.C11_interleaving_partial
